@@ -20,19 +20,26 @@ type Clause struct {
 }
 
 type Contract struct {
-	Key      string // pkgpath#relname
-	Pkg      string
-	Requires []*Clause
-	Ensures  []*Clause
-	Modifies []string
-	HasMod   bool
-	Loops    map[int][]*Clause
-	LoopMods map[int][]string
-	Options  map[string]string
-	Trusted  bool // assumed, body not verified (externs)
-	Pure     bool // no effect on the modelled heap
-	Src      string
-	Asserts  map[string][]*Clause // ghost assertions/assumptions keyed by anchor (unused for now)
+	Key       string // pkgpath#relname
+	Pkg       string
+	Requires  []*Clause
+	Ensures   []*Clause
+	Modifies  []string
+	HasMod    bool
+	Loops     map[int][]*Clause
+	LoopMods  map[int][]string
+	Options   map[string]string
+	Trusted   bool // assumed, body not verified (externs)
+	Pure      bool // no effect on the modelled heap
+	Src       string
+	AssertsAt []*AssertAt // in-body assertions, attached to the statement whose source line contains Anchor
+}
+
+type AssertAt struct {
+	Assume bool // an explicit, listed assumption instead of an obligation
+	Anchor string
+	Clause *Clause
+	Used   bool
 }
 
 type SpecFn struct {
@@ -44,6 +51,7 @@ type SpecFn struct {
 	Src       string
 	Decreases *CExpr
 	Opaque    bool
+	Macro     bool // emitted as a define-fun macro (must not be recursive)
 }
 
 type GhostDecl struct {
@@ -130,9 +138,9 @@ func newRegistry() *Registry {
 }
 
 var stmtKeywords = map[string]bool{
-	"package": true, "func": true, "requires": true, "ensures": true, "assume_ensures": true, "modifies": true, "loop": true,
+	"package": true, "func": true, "requires": true, "ensures": true, "assume_ensures": true, "assert_at": true, "assume_at": true, "modifies": true, "loop": true,
 	"invariant": true, "option": true, "trusted": true, "pure": true, "spec": true, "ufunc": true,
-	"axiom": true, "ghost": true, "decreases": true, "opaque": true, "mapvalues": true, "elemvalues": true, "guarded": true, "monitor": true, "lemma": true, "induct": true,
+	"axiom": true, "ghost": true, "decreases": true, "opaque": true, "macro": true, "mapvalues": true, "elemvalues": true, "guarded": true, "monitor": true, "lemma": true, "induct": true,
 }
 
 type rawStmt struct {
@@ -286,6 +294,19 @@ func (r *Registry) loadContractFile(path string, pkgPath string) error {
 				}
 				cur.Loops[curLoop] = append(cur.Loops[curLoop], cl)
 			}
+		case "assert_at", "assume_at":
+			if cur == nil {
+				return fail("assert_at outside func")
+			}
+			m := regexp.MustCompile(`^"((?:[^"\\]|\\.)*)"\s*:\s*(.+)$`).FindStringSubmatch(s.rest)
+			if m == nil {
+				return fail(`assert_at needs '"anchor text": expr'`)
+			}
+			e, err := parseCExpr(m[2])
+			if err != nil {
+				return fail("%v", err)
+			}
+			cur.AssertsAt = append(cur.AssertsAt, &AssertAt{Assume: s.kw == "assume_at", Anchor: m[1], Clause: &Clause{Text: m[2], Expr: e, Src: s.src}})
 		case "loop":
 			if cur == nil {
 				return fail("loop outside func")
@@ -373,6 +394,10 @@ func (r *Registry) loadContractFile(path string, pkgPath string) error {
 		case "opaque":
 			if lastSpec != nil {
 				lastSpec.Opaque = true
+			}
+		case "macro":
+			if lastSpec != nil {
+				lastSpec.Macro = true
 			}
 		case "axiom":
 			name, text, ok := strings.Cut(s.rest, ":")
